@@ -1,0 +1,26 @@
+//go:build verif
+
+package schema
+
+// Contracts for the goblvc verifier (see /verif/DESIGN.md). Comments only.
+//
+// ---- C16: a copy of a document shares nothing with its source
+//
+// Clone encodes the document to JSON and decodes it into a new object: assumed to build an
+// object graph of its own and to write nothing that existed before (A-CLONE).
+//@ func (d *Object) Clone() (r, err)
+//@   trusted A-CLONE: json.Marshal / json.Unmarshal round trip builds a fresh object graph and writes nothing else
+//@   requires d != nil
+//@   ensures err == nil ==> r != nil && fresh(r)
+//@   ensures err != nil ==> r == nil
+//
+// corrections and replications act on the payload through its interface: anything reachable
+// from the object may be written
+//@ func (d *Object) Correct(opts) (err)
+//@   trusted dispatches to the payload's Correct (bill.Invoice.Correct is under contract on its own)
+//@   requires d != nil
+//@   modifies *
+//@ func (d *Object) Replicate() (err)
+//@   trusted dispatches to the payload's Replicate (bill.Invoice.Replicate is under contract on its own)
+//@   requires d != nil
+//@   modifies *
